@@ -88,6 +88,15 @@ class TypeCase(AbsInt):
             return v == V("msg")
         return False
 
+    @staticmethod
+    def resolve_alias(name: str, st: TCState) -> str:
+        v = st.vals.get(name)
+        if v is not None and len(v) == 1:
+            x = next(iter(v))
+            if isinstance(x, str) and x.startswith("alias:"):
+                return x[6:]
+        return name
+
     def is_type_expr(self, e: ast.AST, st: TCState) -> bool:
         if isinstance(e, ast.Attribute) and e.attr == "message_type" and self.is_msg(e.value, st):
             return True
@@ -119,6 +128,8 @@ class TypeCase(AbsInt):
                 return "new:?"
             if recv is not None and name == "copy" and self.is_msg(recv, st):
                 return "copy-of-msg"
+            if attr_chain(e.func) in (["mido", "Message"], ["mido", "MetaMessage"]):
+                return "new:mido"
         return "other"
 
     def decide_type_test(self, test: ast.expr, st: TCState) -> bool | None:
@@ -170,7 +181,7 @@ class TypeCase(AbsInt):
         if self.none_test(test) is not None:
             name, positive = self.none_test(test)
             v = st.vals.get(name, V("msg") if name in self.msg_names else TOP)
-            if "top" in v or "other" in v:
+            if "top" in v or "other" in v or any(isinstance(x, str) and x.startswith("alias:") for x in v):
                 return None
             if v == V("none"):
                 return positive
@@ -215,7 +226,8 @@ class TypeCase(AbsInt):
             arg = c.args[-1] if (name == "insert" and len(c.args) >= 2) else (c.args[0] if c.args else None)
             if arg is None and c.keywords:
                 arg = c.keywords[0].value
-            return ("append", src(recv), self.classify(arg, st) if arg is not None else "other")
+            rname = self.resolve_alias(recv.id, st) if isinstance(recv, ast.Name) else src(recv)
+            return ("append", rname, self.classify(arg, st) if arg is not None else "other")
         if recv is None and name is not None:
             return ("call", name)
         if recv is not None:
@@ -294,6 +306,10 @@ class TypeCase(AbsInt):
                     elif isinstance(s.value, ast.Constant) and s.value.value is not None:
                         st.vals[t.id] = V("other")
                         st.bump(("set", t.id, repr(s.value.value)))
+                    elif isinstance(s.value, ast.Name) and cls == "other" and s.value.id not in self.msg_names:
+                        # `target = current_sequence`: the name now stands for that object (used to name the receiver of an add)
+                        st.vals[t.id] = V("alias:" + self.resolve_alias(s.value.id, st))
+                        st.bump(("assign", t.id, cls))
                     else:
                         st.vals[t.id] = V(cls) if cls in ("msg", "none") or cls.startswith("new:") else V("other")
                         st.bump(("assign", t.id, cls))
